@@ -26,7 +26,7 @@ VP_FN(void, vp_fmt_parse_all, (const char *fmt)) {
 VP_FN(void, vp_fmt_apply0, (const char *fmt)) { vp_log_writer w(fmt); ST::apply_format(w); } VP_END(void)
 VP_FN(void, vp_fmt_apply1_cstr, (const char *fmt, const char *a)) { vp_log_writer w(fmt); ST::apply_format(w, a); } VP_END(void)
 VP_FN(void, vp_fmt_apply2_cstr, (const char *fmt, const char *a, const char *b)) { vp_log_writer w(fmt); ST::apply_format(w, a, b); } VP_END(void)
-VP_FN(void, vp_fmt_apply1_char, (const char *fmt, char a)) { vp_log_writer w(fmt); ST::apply_format(w, a); } VP_END(void)
+VP_FN(void, vp_fmt_apply1_char, (const char *fmt, int a)) { vp_log_writer w(fmt); ST::apply_format(w, (char)a); } VP_END(void)
 
 // ---- C11: per-type renderers with the spec given directly
 VP_FN(void, vp_format_string, (const ST::format_spec *spec, const char *text, size_t size, int dflt_align)) {
@@ -35,7 +35,8 @@ VP_FN(void, vp_format_numeric_string, (const ST::format_spec *spec, const char *
     vp_log_writer w(""); _ST_PRIVATE::format_numeric_string(*spec, w, text, size, (_ST_PRIVATE::numeric_type)ntype); } VP_END(void)
 VP_FN(size_t, vp_pad_size, (const ST::format_spec *spec, size_t size, int ntype)) { return _ST_PRIVATE::pad_size(*spec, size, (_ST_PRIVATE::numeric_type)ntype); } VP_END(size_t)
 VP_FN(void, vp_format_char, (const ST::format_spec *spec, int ch)) { vp_log_writer w(""); _ST_PRIVATE::format_char(*spec, w, ch); } VP_END(void)
-#define FT_SHIM(NAME, T) VP_FN(void, vp_format_type_##NAME, (const ST::format_spec *spec, T v)) { vp_log_writer w(""); ST::format_type(*spec, w, v); } VP_END(void)
+// integer and character arguments are passed as long long and narrowed here, so that a C harness needs no sub-int calling convention
+#define FT_SHIM(NAME, T) VP_FN(void, vp_format_type_##NAME, (const ST::format_spec *spec, long long v)) { vp_log_writer w(""); ST::format_type(*spec, w, (T)v); } VP_END(void)
 FT_SHIM(bool, bool)
 FT_SHIM(char, char)
 FT_SHIM(wchar, wchar_t)
@@ -51,10 +52,12 @@ FT_SHIM(long, long)
 FT_SHIM(ulong, unsigned long)
 FT_SHIM(llong, long long)
 FT_SHIM(ullong, unsigned long long)
-FT_SHIM(cstr, const char *)
-FT_SHIM(double, double)
-FT_SHIM(float, float)
+VP_FN(void, vp_format_type_cstr, (const ST::format_spec *spec, const char *v)) { vp_log_writer w(""); ST::format_type(*spec, w, v); } VP_END(void)
+VP_FN(void, vp_format_type_double, (const ST::format_spec *spec, double v)) { vp_log_writer w(""); ST::format_type(*spec, w, v); } VP_END(void)
+VP_FN(void, vp_format_type_float, (const ST::format_spec *spec, float v)) { vp_log_writer w(""); ST::format_type(*spec, w, v); } VP_END(void)
 VP_FN(void, vp_format_type_string, (const ST::format_spec *spec, const ST::string *s)) { vp_log_writer w(""); ST::format_type(*spec, w, *s); } VP_END(void)
 // sequential vs &N selection with two arguments of different types through the real apply_format
 VP_FN(void, vp_fmt_apply2_int_cstr, (const char *fmt, int a, const char *b)) { vp_log_writer w(fmt); ST::apply_format(w, a, b); } VP_END(void)
 VP_FN(void, vp_fmt_apply3_cstr, (const char *fmt, const char *a, const char *b, const char *c)) { vp_log_writer w(fmt); ST::apply_format(w, a, b, c); } VP_END(void)
+VP_FN(void, vp_str_from_validated, (ST::string *out, const char *p, size_t n)) { new (out) ST::string(ST::string::from_validated(p, n)); } VP_END(void)
+VP_FN(void, vp_str_dtor, (ST::string *s)) { s->~string(); } VP_END(void)
